@@ -99,7 +99,7 @@ def c09_pack_gen(rng, tier):
     # the compression-table boundary catalogue (shared with C02) under size limits: large messages, names first seen at
     # / beyond offset 0x4000, deep chains — truncated at the limits the listeners use and around their own length
     for t, b in pack_boundary(rng):
-        for s in (512, 1232, 4096, 16384, 16400, 32768, 65535, max(1, len(b) - 1), len(b), len(b) + 11):
+        for s in (512, 16400, 65535, max(1, len(b) - 1)):
             out.append("b_%s_s%d c=1 size=%d msg=%s" % (t, s, s, gens.hx(b)))
     return out
 
